@@ -229,3 +229,15 @@ Definition ansi_idx (a : acolor) : N :=
   | ABrightBlack => 8 | ABrightRed => 9 | ABrightGreen => 10 | ABrightYellow => 11 | ABrightBlue => 12
   | ABrightMagenta => 13 | ABrightCyan => 14 | ABrightWhite => 15
   end.
+
+(* ---- vocabulary of the function translator, second part (WinconBytes / WinconBytesIter, tools/gen_fn_wincon.py) ----
+   Small adapters only. *)
+(* pub struct WinconBytes { parser, capture } *)
+Record wbytes : Set := mkWB { wb_parser : parser; wb_capture : capture }.
+Definition set_wb_parser (x : wbytes) (p : parser) : wbytes := mkWB p (wb_capture x).
+Definition set_wb_capture (x : wbytes) (c : capture) : wbytes := mkWB (wb_parser x) c.
+(* pub struct WinconBytesIter<'s> { bytes, parser: &mut Parser, capture: &mut WinconCapture }: the borrowed fields by value *)
+Record wbiter : Set := mkWBI { wbi_bytes : list N; wbi_parser : parser; wbi_capture : capture }.
+Definition set_wbi_bytes (x : wbiter) (b : list N) : wbiter := mkWBI b (wbi_parser x) (wbi_capture x).
+Definition set_wbi_parser (x : wbiter) (p : parser) : wbiter := mkWBI (wbi_bytes x) p (wbi_capture x).
+Definition set_wbi_capture (x : wbiter) (c : capture) : wbiter := mkWBI (wbi_bytes x) (wbi_parser x) c.
